@@ -9,6 +9,7 @@ From WG Require Import BV.RefSel.
 From WG Require Import BV.Bits.
 From WG Require Import Par.Splice.
 From WG Require Import Flags.Props.
+From WG Require Import Visits.Bfs.
 
 Extraction Language OCaml.
 
@@ -56,4 +57,13 @@ Extraction "model.ml"
   representable
   java_from_props
   version
+  bfs_seq
+  bfs_levels
+  tag_levels
+  level_sizes
+  par_step
+  par_levels
+  steps
+  bfs_order
+  bfs_from_roots
 .
